@@ -242,7 +242,7 @@ def _json_style(rng, md, style):
 
 def gen_foreign(rng, pool=None, shuffle=True, blanks=True, crlf=None,
                 drop_optional=True, json_styles=True, p_main_none=0.12,
-                max_changes=3, max_files=3, big=False):
+                max_changes=3, max_files=3, big=False, meta_le=True):
     """Returns a foreign spec (refmodel.render_foreign format).  Variations:
     option order shuffled, optional options dropped, blank lines between
     sections, all-CRLF header lines, compact / differently indented JSON, raw
@@ -296,13 +296,25 @@ def gen_foreign(rng, pool=None, shuffle=True, blanks=True, crlf=None,
             style = rng.below(5) if json_styles else 3
             t = _json_style(rng, md, style)
 
+            t0 = t
+
             if kind == 'dos':
                 t = t.replace('\n', '\r\n')
 
             try:
                 raw = t.encode(eff or 'utf-8')
             except UnicodeError:
-                raw = json.dumps(md).encode(eff or 'utf-8')
+                t0 = t = json.dumps(md)
+                raw = t.encode(eff or 'utf-8')
+
+            if not meta_le and R.detect_bytes(
+                    raw + (b'' if raw.endswith(nl) else nl), eff) != kind:
+                # no line_endings option may be written for metadata in
+                # this class: fall back to the newline kind that first-line
+                # detection finds
+                kind = 'unix'
+                nl = R.NL(kind, eff)
+                raw = t0.encode(eff or 'utf-8')
 
             if not drop_optional or rng.chance(0.6):
                 opts.append(('format', 'json'))
@@ -322,13 +334,30 @@ def gen_foreign(rng, pool=None, shuffle=True, blanks=True, crlf=None,
         # line_endings may be omitted only where byte-level first-line
         # detection agrees with the producer's intent (spec is silent on
         # code-unit alignment; stay out of the corner)
-        if name != 'meta' or rng.chance(0.3):
-            if drop_optional and R.detect_bytes(raw, eff) == kind and \
-               rng.chance(0.5):
+        def both_readings_agree():
+            # byte-level detection (a parser on stored content) and
+            # character-level detection (a writer handed the text) must both
+            # find the intended kind; they can differ when code units of
+            # UTF-16/32 contain 0x0A / 0x0D off alignment
+            if R.detect_bytes(raw, eff) != kind:
+                return False
+
+            if eff:
+                try:
+                    return R.detect_text(raw.decode(eff)) == kind
+                except UnicodeError:
+                    return False
+
+            return True
+
+        if name == 'meta' and not meta_le:
+            pass
+        elif name != 'meta' or rng.chance(0.3):
+            if drop_optional and both_readings_agree() and rng.chance(0.5):
                 pass
             else:
                 opts.append(('line_endings', kind))
-        elif R.detect_bytes(raw, eff) != kind:
+        elif not both_readings_agree():
             opts.append(('line_endings', kind))
 
         if name == 'preamble':
